@@ -27,6 +27,7 @@ type c18Case struct {
 	Kind    string  `json:"kind"` // ref | real | sparse | mirror
 	Hist    []int64 `json:"hist"` // growth history (sparse: the single published size)
 	Variant string  `json:"variant"`
+	Final   string  `json:"final,omitempty"`  // final_tree_head in log.v3.json: "" none, eq, lock, behind (see c18FinalFor)
 	Target  int     `json:"target,omitempty"` // which deletable .p directory a decoy is planted at
 	Mask    int     `json:"mask,omitempty"`   // sparse: which candidate tiles have their full tile
 	Immut   bool    `json:"immut"`            // set the immutable inode flag like LocalBackend does
@@ -232,6 +233,16 @@ func TestVerifC18(t *testing.T) {
 		for vi, v := range c18HealthyVariants {
 			run(c18Case{Kind: "ref", Hist: h, Variant: v, Immut: (hi+vi)%4 == 0})
 		}
+		// read-only logs: log.v3.json carries a final_tree_head equal to the
+		// published tree, equal to the lock-store tree (ahead of the published
+		// one in the lock-ahead variants), or behind the published tree
+		if thorough || len(h) <= 3 || len(h) >= len(small)-1 {
+			for vi, v := range c18HealthyVariants {
+				for fi, f := range []string{"eq", "lock", "behind"} {
+					run(c18Case{Kind: "ref", Hist: h, Variant: v, Final: f, Immut: (hi+vi+fi)%5 == 0})
+				}
+			}
+		}
 		for vi, v := range c18DecoyVariants {
 			if !thorough && len(h) > 3 && len(h) < len(small)-1 {
 				break // quick: leftovers only on histories of <=3 or >=8 rounds
@@ -282,6 +293,9 @@ func TestVerifC18(t *testing.T) {
 			v := c18HealthyVariants[(vi+hi)%len(c18HealthyVariants)]
 			run(c18Case{Kind: "real", Hist: h, Variant: v, Immut: (hi+vi)%4 == 0})
 		}
+		// the real log went read-only with the lock store ahead / level / final behind
+		run(c18Case{Kind: "real", Hist: h, Variant: "la-applied", Final: "lock", Immut: hi%4 == 1})
+		run(c18Case{Kind: "real", Hist: h, Variant: []string{"plain", "la-partial", "la-staged"}[hi%3], Final: []string{"eq", "lock", "behind"}[(hi/3)%3]})
 	}
 
 	// E. complete trees around the level-1 boundary
@@ -298,6 +312,8 @@ func TestVerifC18(t *testing.T) {
 		for vi, v := range c18HealthyVariants {
 			run(c18Case{Kind: "ref", Hist: h, Variant: v, Immut: (hi+vi)%4 == 0})
 		}
+		run(c18Case{Kind: "ref", Hist: h, Variant: "la-applied", Final: "lock"})
+		run(c18Case{Kind: "ref", Hist: h, Variant: "la-partial", Final: "lock"})
 		for _, v := range bigDecoys {
 			run(c18Case{Kind: "ref", Hist: h, Variant: v, Target: -1})
 		}
@@ -339,7 +355,7 @@ func c18RunCase(c c18Case, scratch string, batch *c18Batch) (o c18Outcome) {
 		panic(verifmc.EngineError{Msg: err.Error()})
 	}
 	defer c18RemoveAll(dir)
-	o.scenario = c.Kind + "/" + c.Variant
+	o.scenario = c.Kind + "/" + c.Variant + c18FinalTag(c)
 
 	var tr *c18Tree
 	render := func(sub string) *c18Rendered {
@@ -348,9 +364,12 @@ func c18RunCase(c c18Case, scratch string, batch *c18Batch) (o c18Outcome) {
 		switch c.Kind {
 		case "ref":
 			if c18IsDecoy(c.Variant) {
-				r = c18RenderLog(d, tr, "plain", c.Immut)
+				r = c18RenderLog(d, tr, "plain", c.Immut, "")
 			} else {
-				r = c18RenderLog(d, tr, c.Variant, c.Immut)
+				r = c18RenderLog(d, tr, c.Variant, c.Immut, c.Final)
+				if r == nil {
+					return nil
+				}
 			}
 		case "mirror":
 			if c18IsDecoy(c.Variant) {
@@ -397,7 +416,7 @@ func c18RunCase(c c18Case, scratch string, batch *c18Batch) (o c18Outcome) {
 		return
 	}
 	last := c.Hist[len(c.Hist)-1]
-	o.class = fmt.Sprintf("%s/%s pub[%s] last[%s] rounds=%d", c.Kind, c.Variant, c18SizeClass(r.published), c18SizeClass(last), min(len(c.Hist), 4))
+	o.class = fmt.Sprintf("%s/%s%s pub[%s] last[%s] rounds=%d", c.Kind, c.Variant, c18FinalTag(c), c18SizeClass(r.published), c18SizeClass(last), min(len(c.Hist), 4))
 	if c.Kind == "sparse" {
 		o.class = fmt.Sprintf("sparse/%s size=%d mask=%d", c.Variant, c.Hist[0], c.Mask)
 	}
@@ -408,6 +427,13 @@ func c18RunCase(c c18Case, scratch string, batch *c18Batch) (o c18Outcome) {
 	o.judge(c, r, tr, before, after, res, "in-process")
 	o.problems = append(o.problems, c18FinishBin(be, batch, after, res)...)
 	return
+}
+
+func c18FinalTag(c c18Case) string {
+	if c.Final == "" {
+		return ""
+	}
+	return "+final-" + c.Final
 }
 
 func c18IsDecoy(v string) bool {
@@ -458,19 +484,23 @@ func (o *c18Outcome) judge(c c18Case, r *c18Rendered, tr *c18Tree, before, after
 
 // c18RunRealCase: the real log writes the directory.
 func c18RunRealCase(c c18Case, dir string, batch *c18Batch) (o c18Outcome) {
-	o.scenario = "real/" + c.Variant
+	o.scenario = "real/" + c.Variant + c18FinalTag(c)
 	tr := c18BuildTree(c.Hist, false)
 	realDir := filepath.Join(dir, "real")
-	r, rl, err := c18RenderReal(realDir, dir, tr, c.Variant)
+	r, rl, err := c18RenderReal(realDir, dir, tr, c.Variant, c.Final)
+	if err == nil && r == nil {
+		o.skipped = true
+		return
+	}
 	if err != nil {
 		panic(verifmc.EngineError{Msg: fmt.Sprintf("c18: real log could not produce %+v: %v", c, err)})
 	}
 	last := c.Hist[len(c.Hist)-1]
-	o.class = fmt.Sprintf("real/%s pub[%s] last[%s] rounds=%d", c.Variant, c18SizeClass(r.published), c18SizeClass(last), min(len(c.Hist), 4))
+	o.class = fmt.Sprintf("real/%s%s pub[%s] last[%s] rounds=%d", c.Variant, c18FinalTag(c), c18SizeClass(r.published), c18SizeClass(last), min(len(c.Hist), 4))
 	before := c18Snapshot(realDir)
 
 	// the reference renderer must produce the same tiles for the same history
-	ref := c18RenderLog(filepath.Join(dir, "ref"), tr, c.Variant, false)
+	ref := c18RenderLog(filepath.Join(dir, "ref"), tr, c.Variant, false, "")
 	if diff := c18CompareRealRef(before, c18Snapshot(ref.root)); len(diff) > 0 {
 		panic(verifmc.EngineError{Msg: fmt.Sprintf("c18: reference renderer disagrees with the real log for %+v: %s", c, strings.Join(diff, "; "))})
 	}
